@@ -167,8 +167,18 @@ async def check_item(item, scratch):
                         fails.append((key,
                                       f"sequence {item['steps']}: command #{i} ({step}) returned {str(got)[:200]}, expected "
                                       f"output ending {want_tail!r} status {want_rc}"))
-            await asyncio.sleep(1.6 if "timeout" in item["steps"] else 0)
-            lines = open(counter).read().split() if os.path.exists(counter) else []
+            # timed-out commands keep running in the background: wait (bounded) until each has left its mark, then a
+            # little longer so that a second execution would show up as well -- robust against a loaded machine
+            def _lines():
+                return open(counter).read().split() if os.path.exists(counter) else []
+
+            if "timeout" in item["steps"]:
+                for _ in range(150):
+                    if all(m in _lines() for m in expected_lines):
+                        break
+                    await asyncio.sleep(0.1)
+                await asyncio.sleep(1.6)
+            lines = _lines()
             for m in set(expected_lines):
                 n = lines.count(m)
                 if n != 1:
@@ -184,6 +194,134 @@ async def check_item(item, scratch):
         except Exception:  # noqa
             pass
     return fails
+
+
+
+
+# ---------------------------------------------------------------------------------------------
+# every way the shell's output stream can be split into read chunks (controlled transport)
+# ---------------------------------------------------------------------------------------------
+
+_RESPONSES: dict = {}
+
+
+class _Hang(Exception):
+    """the reader asks for more bytes although the whole response was delivered: in reality it would wait forever"""
+
+
+class FrameShell:
+    """Factory of a real ``BaseShell`` subclass whose transport is controlled: the command text written by
+    ``BaseShell.execute`` is run by /bin/sh, and its output is handed to the reader cut at the chosen offsets."""
+
+    @staticmethod
+    def make(buffer_size, cuts):
+        from streamflow.core.data import StreamWrapper
+        from streamflow.deployment.shell import BaseShell
+
+        state = {"pending": b"", "pos": 0, "cuts": sorted(cuts), "response_len": 0}
+
+        class Writer(StreamWrapper):
+            async def close(self):
+                pass
+
+            async def read(self, size=None):
+                raise NotImplementedError
+
+            async def write(self, data):
+                # the end marker is made deterministic for these runs (see check_frames), so the response of a given
+                # command text is computed by /bin/sh once and replayed for every cut plan
+                if data not in _RESPONSES:
+                    _RESPONSES[data] = subprocess.run(["sh"], input=data, stdout=subprocess.PIPE, stderr=subprocess.STDOUT).stdout
+                state["pending"] = _RESPONSES[data]
+                state["pos"] = 0
+                state["response_len"] = len(state["pending"])
+
+        class Reader(StreamWrapper):
+            async def close(self):
+                pass
+
+            async def write(self, data):
+                raise NotImplementedError
+
+            async def read(self, size=None):
+                if state["pos"] >= len(state["pending"]):
+                    raise _Hang()
+                end = min(len(state["pending"]), state["pos"] + (size or len(state["pending"])))
+                for c in state["cuts"]:
+                    if state["pos"] < c < end:
+                        end = c
+                        break
+                buf = state["pending"][state["pos"]:end]
+                state["pos"] = end
+                return buf
+
+        class Shell(BaseShell):
+            async def _close(self):
+                pass
+
+        sh = Shell(command=["sh"], buffer_size=buffer_size)
+        sh._reader, sh._writer = Reader(None), Writer(None)
+        return sh, state
+
+
+FRAME_OUTPUTS = {
+    "empty": "", "short": "ok", "line": "hello world\n", "two-lines": "l1\nl2\n", "marker-like": "SF_CMD_END_x:0\nreal\n",
+    "utf8": "ü☃€\n", "len63": "x" * 63, "len64": "x" * 64, "len65": "x" * 65, "len130": "y" * 130,
+}
+
+
+async def check_frames(item):
+    """all single (and, for short responses, double) cut positions of the response x buffer sizes"""
+    fails = []
+    text = FRAME_OUTPUTS[item["payload"]]
+    rc = item["rc"]
+    script = ["printf", "'%s'", "'" + text.replace("\n", "'\"\n\"'") + "'", ";", "exit", str(rc)] if False else None
+    path = item["_file"]
+    cmd = ["cat", path, ";", "(exit " + str(rc) + ")"]
+    expected = (text.encode().decode("utf-8", errors="replace").strip(), rc)
+    n = 0
+    import streamflow.deployment.shell as _shmod
+
+    saved = _shmod.random_name
+    _shmod.random_name = lambda: "0f0f0f0f-fixed-marker-for-replay"
+    try:
+        return await _frames_body(item, cmd, expected)
+    finally:
+        _shmod.random_name = saved
+
+
+async def _frames_body(item, cmd, expected):
+    fails, n = [], 0
+    for bufsize in item["bufsizes"]:
+        # learn the response length with an uncut run
+        sh, st = FrameShell.make(bufsize, [])
+        base = await sh.execute(cmd, capture_output=True)
+        total = st["response_len"]
+        plans = [[c] for c in range(1, total)]
+        if item.get("double") and total <= 90:
+            plans += [[a, b] for a in range(max(1, total - 60), total) for b in range(a + 1, total)]
+        for cuts in [[]] + plans:
+            n += 1
+            sh, st = FrameShell.make(bufsize, cuts)
+            try:
+                got = await sh.execute(cmd, capture_output=True)
+            except _Hang:
+                got = ("hang",)
+            except Exception as e:  # noqa
+                got = ("raised", type(e).__name__, str(e)[:80])
+            if got != expected:
+                where = "in-marker-line" if cuts and max(cuts) > total - 60 else "in-output"
+                fails.append((f"C25|frames|{where}|{'hang' if got == ('hang',) else 'wrong-result'}",
+                              f"persistent shell, buffer {bufsize}, output {item['payload']!r} (response of {total} bytes) delivered "
+                              f"cut at {cuts}: execute() -> {str(got)[:120]}, expected {expected}"))
+                break
+        if not capture_ok(base, expected):
+            fails.append(("C25|frames|uncut|wrong-result", f"uncut response: {base} != {expected}"))
+    return fails, n
+
+
+def capture_ok(got, expected):
+    return got == expected
 
 
 PAYLOADS = {
@@ -203,6 +341,17 @@ def check_chunk(chunk):
     try:
         for item in chunk["items"]:
             n += 1
+            if item["kind"] == "frames":
+                path = os.path.join(scratch, f"frame-payload-{item['payload']}")
+                with open(path, "w") as f:
+                    f.write(FRAME_OUTPUTS[item["payload"]].encode().decode("unicode_escape").encode("latin-1").decode("utf-8")
+                            if "\\" in FRAME_OUTPUTS[item["payload"]] else FRAME_OUTPUTS[item["payload"]])
+                res, cnt = loop.run_until_complete(check_frames(dict(item, _file=path)))
+                n += cnt - 1
+                distinct.add(("frames", item["payload"], item["rc"], tuple(item["bufsizes"]), bool(res)))
+                for k, m in res:
+                    fails.setdefault(k, (k, m, {"items": [item]}))
+                continue
             res = loop.run_until_complete(check_item(item, scratch))
             distinct.add((item["kind"], item["conn"], cls_of(item.get("value", "")) if "value" in item else
                           str(item.get("payload") or item.get("steps")), bool(res)))
@@ -230,6 +379,10 @@ def all_items(tier):
                 if quick and p == "1m" and rc != 0:
                     continue
                 items.append({"kind": "output", "conn": c, "payload": p, "rc": rc})
+    for pl in FRAME_OUTPUTS:
+        for rc in (0, 7, 255) if not quick else (0, 255):
+            items.append({"kind": "frames", "conn": "frame-shell", "payload": pl, "rc": rc,
+                          "bufsizes": [16, 64, 128, 65536] if not quick else [64, 65536], "double": not quick or pl in ("short", "empty")})
     steps = ["ok", "fail", "nonl", "big", "stderr", "timeout"]
     seqs = [list(s) for k in (1, 2) for s in itertools.product(steps, repeat=k)]
     if quick:
@@ -266,7 +419,9 @@ def main(argv=None):
         "(job_name given)} x every hostile string (all strings of length <= 2 over {a, space, \", ', $, `, \\, newline, ü, ;, *} + "
         "$HOME, $(id), a;b ...) as environment value and as working directory x 10 output payloads (empty .. 1 MiB, invalid "
         "UTF-8, text containing the end marker) x exit codes x EVERY command sequence of length <= 2 (thorough 3-4) over {ok, "
-        "fail, no-newline, 70 KB, stderr, timeout}; oracle: output/status equal sh -c in a fresh process (modulo the documented "
+        "fail, no-newline, 70 KB, stderr, timeout}; PLUS the persistent shell's reader (real BaseShell.execute) over a controlled "
+        "transport: 10 outputs x exit codes x buffer sizes with the response cut at EVERY byte offset (and every pair of offsets "
+        "near the end marker); oracle: output/status equal sh -c in a fresh process (modulo the documented "
         "strip), value of $V and pwd verbatim, each command's counter line written exactly once; distinct = (kind, connector, "
         "string class | payload | sequence, outcome)")
     rep.assumptions = ["the command itself is shell text by design (connectors join the argument list with spaces); only "
